@@ -60,7 +60,11 @@ def good_headers(key, sub=None, upgrade="websocket", connection="Upgrade", accep
 # ---- independent reader of a response head (for the oracle; not the code's split/strip logic) ----
 
 _STATUS = re.compile(rb"(\S+) (\d{3})(?: ([^\r\n]*))?")
-_FIELD = re.compile(rb"([!#$%&'*+\-.^_`|~0-9A-Za-z]+):[ \t]*([^\r\n]*?)[ \t]*")
+# field values are read without the surrounding white space; "white space" is taken generously (SP, HT
+# and the other ASCII separators VT FF FS GS RS US), so that a value that differs from the expected one
+# only by such padding is not reported (DESIGN: a reading where the property holds is not an alarm).
+_WS = rb"[ \t\x0b\x0c\x1c-\x1f]"
+_FIELD = re.compile(rb"([!#$%&'*+\-.^_`|~0-9A-Za-z]+):" + _WS + rb"*([^\r\n]*?)" + _WS + rb"*")
 
 
 def read_head(raw):
